@@ -55,6 +55,10 @@ func (d *DBFT[H]) checkPreCommit() {
 		return
 	}
 
+	// PreCommits received before PreBlock could be built (no PrepareRequest or
+	// not all transactions at that moment) are not checked yet.
+	d.verifyPreCommitPayloadsAgainstPreBlock()
+
 	count := 0
 	for _, msg := range d.PreCommitPayloads {
 		if msg != nil && msg.ViewNumber() == d.ViewNumber {
